@@ -82,6 +82,20 @@ func event(q int64, part int, side, kind, digest string) {
 	emit(map[string]interface{}{"a": "Msg", "seq": atomic.AddInt64(&evseq, 1), "q": q, "part": part, "side": side, "kind": kind, "d": digest})
 }
 
+// queryEvent logs the query message: its text (d) and everything else it carries (m)
+func queryEvent(q int64, part int, side string, ctx context.Context, sqlString string, isSubQuery bool, subQueryResults [][]interface{}, unflat bool) {
+	dl, has := ctx.Deadline()
+	m := fmt.Sprintf("sub=%t|unflat=%t|mem=%t|deadline=%t", isSubQuery, unflat, common.ShouldIncludeMemStore(ctx), has)
+	if has {
+		m += fmt.Sprintf("@%d", dl.UnixNano()/1000000)
+	}
+	m += fmt.Sprintf("|subres=%d", len(subQueryResults))
+	for _, r := range subQueryResults {
+		m += fmt.Sprintf(";%v", r)
+	}
+	emit(map[string]interface{}{"a": "Msg", "seq": atomic.AddInt64(&evseq, 1), "q": q, "part": part, "side": side, "kind": "query", "d": sqlString, "m": m})
+}
+
 func digestFlat(r *core.FlatRow) string {
 	return fmt.Sprintf("%x|%d|%v", []byte(r.Key), r.TS, r.Values)
 }
@@ -115,7 +129,7 @@ func (l *leaderDB) RegisterQueryHandler(partition int, query planner.QueryCluste
 	wrapped := func(ctx context.Context, sqlString string, isSubQuery bool, subQueryResults [][]interface{}, unflat bool,
 		onFields core.OnFields, onRow core.OnRow, onFlatRow core.OnFlatRow) (interface{}, error) {
 		q := atomic.AddInt64(&qseq, 1)
-		event(q, partition, "leader", "query", sqlString)
+		queryEvent(q, partition, "leader", ctx, sqlString, isSubQuery, subQueryResults, unflat)
 		of := func(f core.Fields) error { event(q, partition, "leader", "fields", digestFields(f)); return onFields(f) }
 		var or core.OnRow
 		var ofr core.OnFlatRow
@@ -587,7 +601,7 @@ func (f *follower) answer(ctx context.Context, sqlString string, isSubQuery bool
 	query, fault := f.queryFn, f.fault
 	f.mx.Unlock()
 	q := atomic.AddInt64(&qseq, 1) + 1000000 // the follower's own numbering; matched by order per partition
-	event(q, f.part, "follower", "query", sqlString)
+	queryEvent(q, f.part, "follower", ctx, sqlString, isSubQuery, subQueryResults, unflat)
 	sent := 0
 	of := func(fl core.Fields) error { event(q, f.part, "follower", "fields", digestFields(fl)); return onFields(fl) }
 	var or core.OnRow
